@@ -50,7 +50,7 @@ ASSUMPTIONS = [
     'channel-list clauses are tie tolerant; ambiguous peaks are skipped and counted',
 ]
 EXPECTED_PROBES = {
-    'C11': ['cross_probe_tie', 'k>=3', 'tsv_in_some', 'curated_probe', 'id_gap', 'unsigned_ids',
+    'C11': ['cross_probe_tie', 'k>=3', 'tsv_in_some', 'tsv_row_for_id_without_spikes', 'curated_probe', 'id_gap', 'unsigned_ids',
             'k=1', 'same_merger_run_twice', 'tsv_value_zero'],
     'C12': ['k>=3', 'unequal_channels', 'matrix_in_all', 'matrix_in_some', 'unsigned_index_table',
             'highest_template_unused', 'single_column_probe', 'probe_not_starting_at_x0',
@@ -154,6 +154,8 @@ def gen(rng, prop, tier):
             c['ns'] = rng.choice([8200, 16400, 17000])
             c['ties'] = True
         ops = [{'op': 'merge'}]
+        if rng.random() < 0.12:
+            ops[0]['stale_output'] = rng.choice(['templates', 'more'])
         if rng.random() < 0.2:
             ops.append({'op': 'merge_again'})   # the same Merger instance run a second time
         if prop in ('C13', 'C14'):
@@ -365,6 +367,11 @@ class Probe(object):
         world.write_dataset(cfg, g, self.dir)
         self.tsv = {}
         ids = np.unique(g.sclusters)
+        # rows for ids without spikes below the highest id (a cluster merged away keeps its label)
+        gap_ids = [c for c in range(int(ids.max())) if c not in set(int(x) for x in ids)
+                   and rs.rand() < 0.5]
+        ids = np.array(sorted(set(int(x) for x in ids) | set(gap_ids)), dtype=np.int64)
+        self.tsv_gap_ids = gap_ids
         for name in TSV_NAMES:
             if not cfg['tsv'].get(name):
                 continue
@@ -380,7 +387,9 @@ class Probe(object):
                     vals[int(c)] = [int(rs.randint(0, 100)), float(np.round(rs.rand() * 100, 1)),
                                     0.0, 0][int(rs.randint(0, 4))]
                 else:
-                    vals[int(c)] = float(np.round(rs.rand() * 50, 2))
+                    vals[int(c)] = [float(np.round(rs.rand() * 50, 2)), float(np.round(rs.rand(), 8)),
+                                    4e-05, 35.123456, 1e-07][int(rs.randint(0, 5)) if rs.rand() < 0.4
+                                                            else 0]
             if not vals:
                 vals[int(ids[0])] = 'good' if field == 'KSLabel' else 1.5
             with open(self.dir / name, 'w', newline='') as f:
@@ -481,6 +490,13 @@ def check_merge(ctx, probes, out, model):
                 o = next(iter(offs['c'][p.index]))
                 for c, v in p.tsv[name][1].items():
                     exp[c + o] = v
+                    # the renumbered row must lead back to its probe through the probe table
+                    if c in p.tsv_gap_ids:
+                        ctx.probe('tsv_row_for_id_without_spikes')
+                    if 0 <= c + o < len(cp) and int(cp[c + o]) != p.index:
+                        ctx.fail('cluster-probe-table-wrong',
+                                 {'cluster': int(c + o), 'probe': p.index, 'table': int(cp[c + o]),
+                                  'why': 'id carrying a metadata row (no spike)'})
                     if v == 0 and not isinstance(v, str):
                         ctx.probe('tsv_value_zero')
             same = set(got) == set(exp) and all(
@@ -636,6 +652,12 @@ def _find(out, base, label):
     return out / name
 
 
+def _dim0(a):
+    """First dimension of a stored table; a 0-d array has none (reported as -1)."""
+    a = np.asarray(a)
+    return int(a.shape[0]) if a.ndim else -1
+
+
 def check_export_structure(ctx, model, src_dir, out, op, before_src, n_probes, out_model,
                            memo=None, written=None):
     """C13."""
@@ -655,20 +677,20 @@ def check_export_structure(ctx, model, src_dir, out, op, before_src, n_probes, o
     dims = {}
     for base in ('spikes.times.npy', 'spikes.samples.npy', 'spikes.amps.npy', 'spikes.depths.npy',
                  'spikes.clusters.npy', 'spikes.templates.npy'):
-        dims[base] = (load(base).shape[0], ns)
+        dims[base] = (_dim0(load(base)), ns)
     for base in ('clusters.channels.npy', 'clusters.peakToTrough.npy', 'clusters.amps.npy',
                  'clusters.waveforms.npy', 'clusters.waveformsChannels.npy', 'clusters.depths.npy'):
-        dims[base] = (load(base).shape[0], n_clu)
+        dims[base] = (_dim0(load(base)), n_clu)
     for base in ('templates.amps.npy', 'templates.waveforms.npy',
                  'templates.waveformsChannels.npy'):
-        dims[base] = (load(base).shape[0], nt)
+        dims[base] = (_dim0(load(base)), nt)
     for base in ('channels.rawInd.npy', 'channels.localCoordinates.npy'):
-        dims[base] = (load(base).shape[0], nc)
+        dims[base] = (_dim0(load(base)), nc)
     for f in files:
         if f.startswith('channels.') and f.endswith('.npy'):
-            dims[f] = (np.load(out / f).shape[0], nc)
+            dims[f] = (_dim0(np.load(out / f)), nc)
         if f.startswith('clusters.') and f.endswith('.npy'):
-            dims[f] = (np.load(out / f).shape[0], n_clu)
+            dims[f] = (_dim0(np.load(out / f)), n_clu)
     bad = {k: v for k, v in dims.items() if v[0] != v[1]}
     ctx.check(not bad, 'object-table-first-dimension', lambda: {'bad': bad, 'curated': curated})
     # uuids
@@ -1024,6 +1046,19 @@ def run_ops(plan, ctx, cfg):
                 continue
             before = [world.snapshot(p.dir) for p in probes]
             out = root / 'merged'
+            if k == 'merge' and op.get('stale_output'):
+                # crash fault: an earlier merge into this directory was killed after it had
+                # allocated templates.npy (right shape and dtype) and before it filled it in
+                out.mkdir(parents=True, exist_ok=True)
+                shape = (sum(p.cfg['nt'] for p in probes), probes[0].cfg['nsw'],
+                         sum(p.cfg['nc'] for p in probes))
+                np.save(out / 'templates.npy',
+                        np.full(shape, 7.25, dtype=probes[0].cfg['dtypes']['tmpl']))
+                if op['stale_output'] == 'more':
+                    np.save(out / 'spike_times.npy', np.arange(3, dtype=np.uint64))
+                    np.save(out / 'spike_clusters.npy', np.zeros(3, dtype=np.int32))
+                ctx.fault('killed_earlier_merge_left_files')
+                ctx.probe('output_directory_holds_stale_files')
             if k == 'merge':
                 merger = ctx.real('Merger', Merger, [p.dir for p in probes], out,
                                   owners=('C11', 'C12'))
